@@ -255,6 +255,29 @@ PROPS = {
                                        "UnitaryAlignment.bounds abstract (np.inf arithmetic outside the encoding; no obligation depends on its value)",
                                        "wiring obligations W1-W4 are syntactic facts of the current AST"],
     ),
+    "C17": dict(
+        functions=[AL + "Alignment.check#given", AL + "Alignment.check#own", AL + "Alignment.check#none",
+                   AL + "SoftAlignment.check#given", AL + "SoftAlignment.check#own", AL + "SoftAlignment.check#none",
+                   AL + "Alignment.__init__#validity", AL + "Alignment.__init__#validity-soft", AL + "SoftAlignment.__init__#validity",
+                   AL + "UnitaryAlignment.n_tuple", AL + "Alignment.__iter__", CT + "Continuum.__iter__"],
+        oracles=[AL + "Alignment.check"],
+        bounded=[dict(oracle=AL + "Alignment.check",
+                      what="order independence is a meta-argument over the proved characterisations (they quantify over slots symmetrically); it and "
+                           "the conformance of the set / Counter / occurrence-table models are exercised on the real code: random valid partitions "
+                           "of grid continua (2-4 annotators, <= 3 units each, unlabelled units) with 0-3 mutations among drop / duplicate / move / "
+                           "re-slot / drop or repeat a unitary alignment, shuffled: check(), check(continuum), a re-shuffled copy, and "
+                           "check_validity=True for both classes")],
+        design_ref="DESIGN.md section 4 C17",
+        not_decided=["an alignment without any unitary alignment raises IndexError (self.unitary_alignments[0]) instead of a verdict: outside requires",
+                     "Alignment.check also rejects a pair that is NOT a pair of the continuum when it is held twice (the statement speaks of the "
+                     "continuum's pairs only): outside requires; a foreign pair held once is ignored (proved)",
+                     "SoftAlignment.check raises KeyError (not SetPartitionError) when a held pair is not a pair of the continuum: proved as such "
+                     "(raises KeyError iff ...), the statement only asks that the check does not succeed when a unit is missing",
+                     "order independence: not a machine-checked lemma (the characterisations are symmetric in the position of a unitary alignment)"],
+        trusted=S_COMMON + ["model: builtin set / Counter (pyvc/models/pysets.py)", "model: the occurrence table of SoftAlignment.check "
+                            "(pyvc/models/occmap.py)", "model: sortedcontainers enumeration invariant at the final loops (model_inv)",
+                            "hash / == of (annotator, unit) pairs is component-wise (S6)"],
+    ),
     "C20": dict(
         functions=[CT + "GammaResults.gamma", CT + "GammaResults.n_samples", CT + "GammaResults.expected_disorder", CT + "GammaResults.observed_disorder",
                    AL + "Alignment.disorder"],
